@@ -89,7 +89,9 @@ def handle (j : Json) : Except String Json := do
   let keysA := if ownerShort && flat then ownerFull.drop 1 else ownerFull
   let missingA := flat && missing.isSome
   let tgtSignable := (signRole false rootTable keysA ⟨tgtKeys, thrT⟩ 0).isSome
-  let createRes : String := if !tgtSignable then "signing-keys-not-found" else if missingA then "missing-field" else "ok"
+  -- `build_targets` (version, expiration) runs before the targets role is signed; snapshot and timestamp are built afterwards
+  let createRes : String := if flat && missing == some 0 then "missing-field" else if !tgtSignable then "signing-keys-not-found"
+    else if missingA then "missing-field" else "ok"
   let mut steps : Array Json := #[Json.mkObj [("op", "create"), ("res", createRes)]]
   let mut accepted : List Bool := roles.map fun _ => false
   let mut curVersion : List Nat := roles.map (·.version)
